@@ -30,8 +30,19 @@ def build(inp):
     raise core.HarnessError('unknown via %r' % (via,))
 
 
+def expand_big(inp):
+    """A case {'big': shape, 'N': N, ...} stands for the large graph of that shape (km.big_structure)."""
+    if 'big' not in inp:
+        return inp
+    from .. import km
+    K = km.big_structure(inp['big'], inp['N'])
+    return dict(inp, n=K['n'], edges=K['edges'])
+
+
 def check_scc(inp):
     from pyModelChecking.graph import compute_SCCs
+    report = inp
+    inp = expand_big(inp)
     n = inp['n']
     edges = [tuple(e) for e in inp['edges']]
     nm = G.NAMINGS[inp['naming']]
@@ -40,7 +51,9 @@ def check_scc(inp):
     except core.HarnessError:
         raise
     except Exception as e:
-        return Failure('scc', inp, 'the graph can be built', 'raised %s: %s' % (type(e).__name__, e))
+        return Failure('scc', report, 'the graph can be built', 'raised %s: %s' % (type(e).__name__, e))
+    if 'big' in report:
+        inp = report                      # failures are reported with the compact description
     before = G.snapshot_graph(g)
     try:
         comps = [list(c) for c in compute_SCCs(g)]
@@ -207,6 +220,28 @@ def history_shard(st, shard, nshards, payload):
                         return
 
 
+def big_shard(st, shard, nshards, payload):
+    """SIZE: graphs with hundreds to thousands of nodes (paths and cycles as long as the graph, a node with
+    thousands of successors, a complete binary tree)."""
+    from .. import km
+    i = -1
+    for shape in km.BIG_SHAPES:
+        for N in payload['Ns']:
+            for via in ('ctor', 'incremental'):
+                i += 1
+                if i % nshards != shard:
+                    continue
+                inp = {'big': shape, 'N': N, 'how': (0, 1, 2)[i % 3], 'naming': ('int', 'str', 'tuple')[(i // 3) % 3], 'via': via}
+                st.evaluations += 1
+                st.nontrivial += 1
+                st.bump('size: %d+ nodes' % (1000 * (N // 1000)))
+                st.sample(inp, cls='big-' + shape)
+                f = check_scc(inp)
+                if f is not None and st.failure is None:
+                    st.failure = f
+                    return
+
+
 def history_random_shard(st, shard, nshards, payload):
     def body(inp):
         nq = sum(1 for op in inp['ops'] if op[0].startswith('scc'))
@@ -274,6 +309,14 @@ def run(ctx):
         ctx.violation(f)
         return
 
+    bp = {'Ns': ctx.pick([1300], [500, 1300, 3500])}
+    ctx.scopes.append('size: 8 shapes (path into a loop, countdown, ring, lollipop, ladder, tree, two rings, fan) with %s nodes, built by the constructor and by add_node/add_edge'
+                      % [n_ + 1 for n_ in bp['Ns']])
+    f = core.run_sharded(ctx, big_shard, bp)
+    if f is not None:
+        ctx.violation(f)
+        return
+
     # histories: the same graph OBJECT asked again after it grew
     if ctx.thorough:
         hp = {'scopes': [(0, 1), (1, 1), (2, 1), (3, 1), (4, 1)], 'at_upto': 3}
@@ -324,7 +367,7 @@ def random_shard(st, shard, nshards, payload):
 
 def _minimise(f):
     """Greedy: drop edges while the failure persists."""
-    if f.check != 'scc':
+    if f.check != 'scc' or 'big' in f.input:
         return f
     inp = dict(f.input)
     edges = [tuple(e) for e in inp['edges']]
